@@ -19,7 +19,7 @@
 (* NOT a transcription of the Hoehrmann table: states here are the ABNF    *)
 (* positions.                                                              *)
 (***************************************************************************)
-EXTENDS Naturals, Sequences, FiniteSets, TLC
+EXTENDS Naturals, Sequences, SequencesExt, FiniteSets, TLC
 
 Byte == 0..255
 AllBytes == Byte
@@ -109,13 +109,14 @@ Step(st, b) ==
 (* "total index" of the API).  Result quad: valid, endsOnCodePoint,        *)
 (* index in chunk, total index.                                            *)
 (***************************************************************************)
-RECURSIVE Feed(_, _, _)
 \* returns [st, n] : state after the chunk and number of bytes consumed before rejection
-Feed(st, chunk, i) ==
-  IF i > Len(chunk) THEN [st |-> st, n |-> Len(chunk)]
-  ELSE LET nx == Step(st, chunk[i]) IN
-       IF nx = "rej" THEN [st |-> "rej", n |-> i - 1]
-       ELSE Feed(nx, chunk, i + 1)
+\* (a left fold - SequencesExt!FoldLeft is evaluated iteratively by TLC; the third parameter is kept for readability:
+\* feeding starts at octet i = 1)
+FeedStep(a, b) ==
+  IF a.st = "rej" THEN a
+  ELSE LET nx == Step(a.st, b) IN
+       IF nx = "rej" THEN [st |-> "rej", n |-> a.n] ELSE [st |-> nx, n |-> a.n + 1]
+Feed(st, chunk, i) == FoldLeft(FeedStep, [st |-> st, n |-> 0], chunk)
 
 Validate(v, chunk) ==
   IF v.st = "rej"
